@@ -92,13 +92,18 @@ def parse_dependencies_from_task_function(
         )
 
         # If all nodes are python nodes, we simplify the parameter value and store it in
-        # one node. If it is a node, we keep it.
+        # one node. If it is a node, we keep it. The raw value can only stand in for the
+        # nodes if the user did not declare nodes inside of it.
         are_all_nodes_python_nodes_without_hash = all(
             isinstance(x, PythonNode) and not x.hash for x in tree_leaves(nodes)
+        )
+        has_value_declared_nodes = any(
+            isinstance(x, (PNode, PProvisionalNode)) for x in tree_leaves(value)
         )
         if (
             not isinstance(nodes, (PNode, PProvisionalNode))
             and are_all_nodes_python_nodes_without_hash
+            and not has_value_declared_nodes
         ):
             node_name = create_name_of_python_node(
                 NodeInfo(
